@@ -2,6 +2,8 @@ package checks
 
 import (
 	"fmt"
+	"go/ast"
+	"go/constant"
 	"go/token"
 	"go/types"
 	"sort"
@@ -631,4 +633,80 @@ func checkDecoderCoverage(p *core.Program, r *core.Report, ps *types.Named) {
 		}
 	}
 	r.Count("stream decoders checked for section coverage", n)
+}
+
+// checkCommandsUseLoader (O15.9): every CLI command that is given a keys file (--keys-file, or --input of convert-to-raw)
+// obtains its system from a loader of the load chain — the functions whose every section read is governed by O15.1–O15.8.
+// A command that decodes or copies the file by other means (streams the constraint-system section through io.Copy, reads
+// the keys with its own code) is outside all of those rules: end-of-file in the part it does not decode is not an error.
+func checkCommandsUseLoader(p *core.Program, r *core.Report, li *loaderInfo) {
+	loaderFns := map[*ssa.Function]bool{}
+	for _, l := range li.loaders {
+		if fd, ok := l.Node.(*ast.FuncDecl); ok {
+			if obj, _ := l.Pkg.TypesInfo.Defs[fd.Name].(*types.Func); obj != nil {
+				if fn := p.SSA.FuncValue(obj); fn != nil {
+					loaderFns[fn] = true
+				}
+			}
+		}
+	}
+	n := 0
+	for _, c := range cliCommands(p) {
+		act := actionSSA(p, c)
+		if act == nil {
+			continue
+		}
+		// does the action read a keys-file flag?
+		flag := ""
+		reach := map[*ssa.Function]bool{}
+		var visit func(f *ssa.Function, depth int)
+		usesLoader := false
+		visit = func(f *ssa.Function, depth int) {
+			if f == nil || reach[f] || depth > 8 {
+				return
+			}
+			reach[f] = true
+			if loaderFns[f] {
+				usesLoader = true
+			}
+			for _, a := range f.AnonFuncs {
+				visit(a, depth+1)
+			}
+			for _, b := range f.Blocks {
+				for _, in := range b.Instrs {
+					ci, ok := in.(ssa.CallInstruction)
+					if !ok {
+						continue
+					}
+					sc := ci.Common().StaticCallee()
+					if sc == nil {
+						continue
+					}
+					if sc.Name() == "String" && sc.Pkg != nil && strings.HasPrefix(sc.Pkg.Pkg.Path(), "github.com/urfave/cli") && len(ci.Common().Args) == 2 {
+						if k, ok := ci.Common().Args[1].(*ssa.Const); ok && k.Value != nil && k.Value.Kind() == constant.String {
+							name := constant.StringVal(k.Value)
+							if name == "keys-file" || (name == "input" && c.Name == "convert-to-raw") {
+								flag = name
+							}
+						}
+					}
+					if len(sc.Blocks) > 0 && core.InRepo(pkgPathOf(sc)) {
+						visit(sc, depth+1)
+					}
+				}
+			}
+		}
+		visit(act, 0)
+		if flag == "" {
+			continue
+		}
+		n++
+		cn := "main.cmd:" + c.Name + ": the keys file is read by a loader of the load chain"
+		if usesLoader {
+			r.OK("O15.9", cn, p.Pos(c.Lit.Pos()), "--%s is loaded through the load chain", flag)
+		} else {
+			r.Violation("O15.9", cn, p.Pos(c.Lit.Pos()), "the command takes --%s but no loader of the load chain (%d known) is reachable from its action: whatever reads the file instead is not held to the section-by-section error and coverage rules, so a truncated file can pass", flag, len(loaderFns))
+		}
+	}
+	r.Count("commands taking a keys file", n)
 }
